@@ -910,6 +910,11 @@ func (r *awsChunkReadCloser) Read(p []byte) (n int, err error) {
 	if r.chunkBytesRemaining <= 0 {
 		chunkMetadata, err := r.innerBuf.ReadBytes('\n')
 		if err != nil {
+			// The stream only ends cleanly after the zero-length chunk; running
+			// out of input before it means the upload was truncated.
+			if err == io.EOF {
+				err = io.ErrUnexpectedEOF
+			}
 			return 0, err
 		}
 		split := bytes.SplitN(bytes.Trim(chunkMetadata, "\r\n"), []byte(";chunk-signature="), 2)
@@ -967,6 +972,10 @@ func (r *awsChunkReadCloser) Read(p []byte) (n int, err error) {
 		p = p[:r.chunkBytesRemaining] // Limit the read to the remaining bytes in the chunk
 	}
 	n, err = io.ReadFull(r.innerBuf, p)
+	if err == io.EOF {
+		// the chunk header promised more data
+		err = io.ErrUnexpectedEOF
+	}
 	if !r.skipChunkValidation {
 		r.chunkHasher.Write(p[:n])
 	}
@@ -977,6 +986,9 @@ func (r *awsChunkReadCloser) Read(p []byte) (n int, err error) {
 	if r.chunkBytesRemaining == 0 {
 		_, err := r.innerBuf.Discard(2) // Discard the trailing \r\n
 		if err != nil {
+			if err == io.EOF {
+				err = io.ErrUnexpectedEOF
+			}
 			return 0, err
 		}
 		if !r.skipChunkValidation {
